@@ -282,8 +282,7 @@ def m_take_top(ip, stack, n):
         from .models import raise_
         raise_(IndexError, 'pop from an empty deque')
     L = zint(d.ln)
-    j = z3.Const('j!tt', I)
-    arr = z3.Lambda([j], z3.Select(d.arr, L - 1 - j))
+    arr = top_view(d.arr, L)
     ip.heap_write_guard()
     nn = z3.If(zint(n) < 0, 0, zint(n)) if not isinstance(n, int) else max(n, 0)
     d.ln = z3.simplify(L - nn)
@@ -345,7 +344,129 @@ def m_fresh_bytes(ip, tag, n):
     return sym_bytes(e, cn if cn is not None else zint(n))
 
 
+@_always
+def m_repeat(ip, item, n):
+    n = ip.resolve(n)
+    item = ip.resolve(item)
+    if isinstance(n, int):
+        return [item] * n
+    return ZList('bytes', z3.K(I, bexpr(item)), z3.If(zint(n) < 0, 0, zint(n)), kind='list')
+
+
+@_always
+def m_top_items(ip, stack, n):
+    d = stack.f['deque']
+    return ZList('bytes', top_view(d.arr, zint(d.ln)), zint(n) if not isinstance(n, int) else n, kind='list')
+
+
+def top_view(arr, L):
+    """the list (top first) seen from the top of a stack array of length L"""
+    j = z3.Const('j!top', I)
+    return z3.Lambda([j], z3.Select(arr, z3.simplify(L - 1) - j))
+
+
+isum_f = z3.Function('isum', sym.ARR_IB, I, I)     # sum_{j<k} sdec(arr[j])
+iprod_f = z3.Function('iprod', sym.ARR_IB, I, I)   # prod_{j<k} sdec(arr[j])
+
+
+def _fold_term(ip, f, arr, n, unit, op):
+    """f(arr, n) with its one-step unfolding as ground facts (the function is DEFINED by these
+    equations; every term created gets its own instance)"""
+    t = f(arr, n)
+    seen = ip.ctx.ghost.setdefault('fold_terms', [])
+    if any(x.eq(t) for x in seen):
+        return t
+    seen.append(t)
+    ip.ctx.define(z3.Implies(n <= 0, t == unit))
+    if op is not None:
+        prev = f(arr, n - 1)
+        last = sdec_f(z3.Select(arr, n - 1))
+        ip.ctx.define(z3.Implies(n > 0, t == op(prev, last)))
+    return t
+
+
+def _rec(name):
+    return rec_list_funs()[name]
+
+
+_recl = None
+
+
+def rec_list_funs():
+    """recursive spec functions over (array, count): isum(arr,k) = sum_{j<k} sdec(arr[j]),
+    iprod likewise"""
+    global _recl
+    if _recl is None:
+        arr = z3.Const('arr!r', sym.ARR_IB)
+        k = z3.Int('k!r')
+        ps = z3.RecFunction('isum', sym.ARR_IB, I, I)
+        z3.RecAddDefinition(ps, [arr, k], z3.If(k <= 0, z3.IntVal(0), ps(arr, k - 1) + sdec_f(z3.Select(arr, k - 1))))
+        pp = z3.RecFunction('iprod', sym.ARR_IB, I, I)
+        z3.RecAddDefinition(pp, [arr, k], z3.If(k <= 0, z3.IntVal(1), pp(arr, k - 1) * sdec_f(z3.Select(arr, k - 1))))
+        _recl = {'sum': ps, 'prod': pp}
+    return _recl
+
+
+def _sdec_term(ip, b):
+    """sdec(b) with its definition as a ground fact"""
+    e = bexpr(b)
+    t = sdec_f(e)
+    n = blen(b)
+    u = models.int_from_bytes_model(ip, b, 'big')
+    n8 = 8 * n if isinstance(n, int) else 8 * zint(n)
+    ip.ctx.define(z3.Implies(zint(n) >= 1 if not isinstance(n, int) else z3.BoolVal(n >= 1),
+                             t == z3.If(zint(u) >= m_pow2(ip, n8 - 1), zint(u) - m_pow2(ip, n8), zint(u))))
+    return t
+
+
+@_always
+def m_sdecode2(ip, b):
+    b = ip.resolve(b)
+    if isinstance(b, bytes):
+        return vocab.sdecode(b)
+    return _sdec_term(ip, b)
+
+
+@_always
+def m_int_sum(ip, items):
+    arr, n = _items_arr(ip, items)
+    return _fold_term(ip, isum_f, arr, z3.simplify(n), z3.IntVal(0), lambda a, b: a + b)
+
+
+@_always
+def m_int_prod(ip, items):
+    arr, n = _items_arr(ip, items)
+    return _fold_term(ip, iprod_f, arr, z3.simplify(n), z3.IntVal(1), None)   # unfold on request: iprod_step
+
+
+iprodc_f = z3.Function('iprodc', I, sym.ARR_IB, I, I)    # c * prod_{j<k} sdec(arr[j])
+
+
+@_always
+def m_int_prod_from(ip, c, items):
+    arr, n = _items_arr(ip, items)
+    n = z3.simplify(n)
+    t = iprodc_f(zint(c), arr, n)
+    ip.ctx.define(z3.Implies(n <= 0, t == zint(c)))
+    return t
+
+
+@_always
+def m_imin(ip, a, b):
+    a, b = ip.resolve(a), ip.resolve(b)
+    if isinstance(a, int) and isinstance(b, int):
+        return min(a, b)
+    return z3.If(zint(a) < zint(b), zint(a), zint(b))
+
+
 def install2():
+    models.register_model(vocab.repeat, m_repeat)
+    models.register_model(vocab.top_items, m_top_items)
+    models.register_model(vocab.sdecode, m_sdecode2)
+    models.register_model(vocab.int_sum, m_int_sum)
+    models.register_model(vocab.int_prod, m_int_prod)
+    models.register_model(vocab.imin, m_imin)
+    models.register_model(vocab.int_prod_from, m_int_prod_from)
     models.register_model(vocab.take_top, m_take_top)
     models.register_model(vocab.put_all, m_put_all)
     models.register_model(vocab.all_nonempty, m_all_nonempty)
